@@ -184,14 +184,23 @@ def combined(wim, wref, n):
     return out
 
 
-def tables(x, y, ra, dec, wim, wref, name='im'):
+def tables(x, y, ra, dec, wim, wref, name='im', foreign=False):
+    """matched image / reference tables. foreign=True: the image table also carries RA/DEC columns (stale sky
+    positions from another WCS solution) and the reference table x/y columns - extra columns a caller's tables may
+    well have; only x, y of the image and RA, DEC of the reference are the data of the fit."""
     im = Table([x, y], names=('x', 'y'))
     if wim is not None:
         im['weight'] = wim
+    if foreign:
+        im['RA'] = np.asarray(ra, dtype=float) + 1.25e-3
+        im['DEC'] = np.asarray(dec, dtype=float) - 0.75e-3
     im.meta['name'] = name
     ref = Table([ra, dec], names=('RA', 'DEC'))
     if wref is not None:
         ref['weight'] = wref
+    if foreign:
+        ref['x'] = np.asarray(x, dtype=float)[::-1].copy()
+        ref['y'] = np.asarray(y, dtype=float)[::-1].copy()
     return im, ref
 
 
